@@ -16,6 +16,9 @@ struct IterRec {
     nodes: usize,
     events: usize,
     fingerprint: String,
+    /// state after a planting hook ran in this iteration (measure, node count, fingerprint): what the limit check and the
+    /// next round of rewriting start from
+    post: Option<((usize, usize, usize, usize), usize, String)>,
 }
 
 fn meas(eg: &EGraph<Main>) -> (usize, usize, usize, usize) {
@@ -27,8 +30,14 @@ fn fingerprint(eg: &EGraph<Main>, tracked: &[AppliedId]) -> String {
 }
 
 pub fn exec_runner(start: Vec<ATerm>, rules: Vec<usize>, iter_limit: usize, node_limit: usize, fail_at: Option<usize>, eqsat: bool) -> Case {
+    exec_runner_p(start, rules, iter_limit, node_limit, fail_at, eqsat, false)
+}
+
+/// `plant`: a last hook that adds a new term to the e-graph in every iteration (hooks may mutate the e-graph; the report and the
+/// limit check have to see the result)
+pub fn exec_runner_p(start: Vec<ATerm>, rules: Vec<usize>, iter_limit: usize, node_limit: usize, fail_at: Option<usize>, eqsat: bool, plant: bool) -> Case {
     let desc = format!(
-        "start={} rules={} fail_at={:?}",
+        "start={} rules={} fail_at={:?} plant={plant}",
         start.iter().map(enc_term).collect::<Vec<_>>().join("+"),
         rules.iter().map(|i| POOL[*i].0).collect::<Vec<_>>().join("."),
         fail_at
@@ -50,12 +59,12 @@ pub fn exec_runner(start: Vec<ATerm>, rules: Vec<usize>, iter_limit: usize, node
                 tracked.borrow_mut().push(a);
             }
             let _ = slotted_egraphs::verif::take_events();
-            initial = IterRec { measure: meas(&g), nodes: g.total_number_of_nodes(), events: 0, fingerprint: fingerprint(&g, &tracked.borrow()) };
+            initial = IterRec { measure: meas(&g), nodes: g.total_number_of_nodes(), events: 0, fingerprint: fingerprint(&g, &tracked.borrow()), post: None };
             let (recs2, tr2) = (recs.clone(), tracked.clone());
             let mut k = 0usize;
             let rep = run_eqsat(&mut g, rws, iter_limit, 100000, move |eg: &mut EGraph<Main>| {
                 let evs = slotted_egraphs::verif::take_events().len();
-                recs2.borrow_mut().push(IterRec { measure: meas(eg), nodes: eg.total_number_of_nodes(), events: evs, fingerprint: fingerprint(eg, &tr2.borrow()) });
+                recs2.borrow_mut().push(IterRec { measure: meas(eg), nodes: eg.total_number_of_nodes(), events: evs, fingerprint: fingerprint(eg, &tr2.borrow()), post: None });
                 let this = k;
                 k += 1;
                 if Some(this) == fail_at { Err("1".to_string()) } else { Ok(()) }
@@ -77,11 +86,11 @@ pub fn exec_runner(start: Vec<ATerm>, rules: Vec<usize>, iter_limit: usize, node
             }
             *tracked.borrow_mut() = runner.roots.clone();
             let _ = slotted_egraphs::verif::take_events();
-            initial = IterRec { measure: meas(&runner.egraph), nodes: runner.egraph.total_number_of_nodes(), events: 0, fingerprint: fingerprint(&runner.egraph, &tracked.borrow()) };
+            initial = IterRec { measure: meas(&runner.egraph), nodes: runner.egraph.total_number_of_nodes(), events: 0, fingerprint: fingerprint(&runner.egraph, &tracked.borrow()), post: None };
             let (recs2, tr2) = (recs.clone(), tracked.clone());
             runner = runner.with_hook(move |r: &mut Runner<Main, (), (), String>| {
                 let evs = slotted_egraphs::verif::take_events().len();
-                recs2.borrow_mut().push(IterRec { measure: meas(&r.egraph), nodes: r.egraph.total_number_of_nodes(), events: evs, fingerprint: fingerprint(&r.egraph, &tr2.borrow()) });
+                recs2.borrow_mut().push(IterRec { measure: meas(&r.egraph), nodes: r.egraph.total_number_of_nodes(), events: evs, fingerprint: fingerprint(&r.egraph, &tr2.borrow()), post: None });
                 Ok(())
             });
             let mut k = 0usize;
@@ -90,6 +99,21 @@ pub fn exec_runner(start: Vec<ATerm>, rules: Vec<usize>, iter_limit: usize, node
                 k += 1;
                 if Some(this) == fail_at { Err("1".to_string()) } else { Ok(()) }
             });
+            if plant {
+                let (recs3, tr3) = (recs.clone(), tracked.clone());
+                let mut j = 0u32;
+                runner = runner.with_hook(move |r: &mut Runner<Main, (), (), String>| {
+                    j += 1;
+                    // a bare number: a new class and e-node that no rule of the pool can match (saturation is about the rules)
+                    let t = ATerm { v: 15, fields: vec![CField::Lit(format!("{}", 900 + j))], children: vec![] };
+                    r.egraph.add_expr(to_recexpr::<Main>(&t));
+                    let _ = slotted_egraphs::verif::take_events();
+                    if let Some(last) = recs3.borrow_mut().last_mut() {
+                        last.post = Some((meas(&r.egraph), r.egraph.total_number_of_nodes(), fingerprint(&r.egraph, &tr3.borrow())));
+                    }
+                    Ok(())
+                });
+            }
             let rep = runner.run(&rws);
             stop = match rep.stop_reason {
                 StopReason::Saturated => "Saturated".into(),
@@ -111,6 +135,10 @@ pub fn exec_runner(start: Vec<ATerm>, rules: Vec<usize>, iter_limit: usize, node
         let mut prev = initial.clone();
         let mut obs: Vec<String> = Vec::new();
         for (k, rec) in recs.iter().enumerate() {
+            // the round of rewriting started from the state the previous iteration's hooks left behind
+            if let Some((m, n, f)) = &prev.post {
+                prev = IterRec { measure: *m, nodes: *n, events: 0, fingerprint: f.clone(), post: None };
+            }
             let progress = rec.measure != prev.measure;
             if !progress {
                 // `apply_rewrites` returned false: nothing observable may have changed
@@ -122,7 +150,9 @@ pub fn exec_runner(start: Vec<ATerm>, rules: Vec<usize>, iter_limit: usize, node
                 }
             }
             let h = if Some(k) == fail_at { "1" } else { "-" };
-            obs.push(format!("p{},h{h},n{},t0", if progress { 1 } else { 0 }, rec.nodes));
+            // the limit check runs after the hooks
+            let nodes_at_check = rec.post.as_ref().map(|p| p.1).unwrap_or(rec.nodes);
+            obs.push(format!("p{},h{h},n{},t0", if progress { 1 } else { 0 }, nodes_at_check));
             prev = rec.clone();
         }
         if stop == "Saturated" {
@@ -389,7 +419,8 @@ pub fn run(ctx: &mut Ctx) {
             let iters = rng.range(2, 5);
             ctx.emit(exec_direct(start, idx, iters));
         } else {
-            ctx.emit(exec_runner(start, idx, iter_limit, node_limit, fail_at, eqsat));
+            let plant = !eqsat && rng.chance(1, 3);
+            ctx.emit(exec_runner_p(start, idx, iter_limit, node_limit, fail_at, eqsat, plant));
         }
     }
 }
